@@ -207,6 +207,12 @@ def prove(ctx, extra_targets=()):
     for ns in spaces:
         files += [f for f in module_closure("Props." + ns) if f not in files]
     ctx.cov["lean_files"] = files
+    # translator failures count for this property only if it depends on what that translator writes
+    for (g, outs, what, detail) in getattr(ctx, "translator_failures", []):
+        if outs is None or any(("Generated/" + o) in files for o in outs):
+            ctx.problem("translator", what, detail)
+        else:
+            ctx.cov.setdefault("translator_failures_elsewhere", []).append(g)
     failing = set()
     if not ok:
         errs = parse_lean_errors(log)
